@@ -16,6 +16,7 @@ J gen_tasks(const std::string& prop, uint64_t run_seed, const std::string& tier)
   knobs.set("stack", (uint64_t)1 << 20);
   knobs.set("protect", 1);
   knobs.set("locale", kn.below(2));      // half of the runs under a process locale whose radix character is a comma
+  knobs.set("fpmode", kn.below(4) == 0 ? 1 : 0);   // a quarter of the runs with FTZ/DAZ set in the thread's MXCSR
   plan.set("knobs", knobs);
   unsigned nt = (unsigned)(kn.chance(1, 5) ? kn.range(9, 16) : kn.range(2, 8));
   J tasks = J::arr();
